@@ -742,7 +742,7 @@ impl Property for Help {
     fn budget(&self, tier: Tier) -> Budget {
         Budget {
             cases: tier.pick(200_000, 6_000_000),
-            tape_len: 900,
+            tape_len: 5000,
         }
     }
     fn decode(&self, t: &mut Tape<'_>) -> HelpCase {
